@@ -217,7 +217,7 @@ def drive(args):
             return            # the verdict of this job is settled (12 recorded hangs); do not wait for thousands more
         if tid % 97 == 13:
             drv.hazard(drv.rng(seed, 'hazard', tid))
-        with drv.Env('mut', lo, tid, every=4):         # every fourth call with the library's debug logging on
+        with drv.Env('mut', lo, tid):         # a third of the calls in another environment (drv.Env)
             e, d = isoc.do_loads(data, codec, bc, hexb, secs=4.0 if hangs < 3 else 1.5)
         if e['kind'] == 'hang':
             hangs += 1
@@ -246,6 +246,22 @@ def drive(args):
                     e, b = isoc.do_dumps(m, codec, bc, hexb)
                     if b is not None:
                         add('ICC content %s' % (head + tail).hex(), b, repr(m))
+        # merchant-details elements (regular-expression split) holding a long run of one character and not fitting the
+        # layout: the split must fail fast, whatever the character (carriage returns, line feeds, blanks, backslashes)
+        d43 = [b_ for b_ in bc if b_ != '1' and bc[b_].get('field_processor') == 'DE43']
+        for ib in d43[:1]:
+            cap = 99 if bc[ib]['field_type'] == 'LLVAR' else 200
+            for ch in ('\r', '\n', ' ', '\\', 'A', '\t', '\x0b', '0'):
+                for shape in (0, 1, 2):
+                    run = ch * (cap - 30)
+                    v = (('SHOP' + run + 'END'), ('A\\B\\' + run + '\\'), (run + '\\\\\\1234567890XYZ   '))[shape][:cap]
+                    m = {'MTI': '1240', 'DE' + ib: v}
+                    try:
+                        e, b = isoc.do_dumps(m, codec, bc, hexb)
+                    except Exception:
+                        b = None
+                    if b is not None:
+                        add('merchant details with a run of %d x %r (shape %d)' % (cap - 30, ch, shape), b, repr(m)[:200])
     if with_random:
         r = drv.rng(seed, 'rnd', cfgspec, codec, hexb, lo)
         for desc, x in random_inputs(r, with_random, codec):
